@@ -1,305 +1,42 @@
-import ExprModel.Proofs.VMInv
+import ExprModel.Proofs.VMStepA
+import ExprModel.Proofs.VMStepB
+import ExprModel.Proofs.VMStepC
+import ExprModel.Proofs.VMStepD
 /-
-The accounting effect of one `step` of the VM model on ARBITRARY bytecode (C06): `step_sat`.
+The accounting effect of one `step` of the VM model on ARBITRARY bytecode (C06): `step_sat`, assembled from the
+case analyses of VMStepA (allocating opcodes) and VMStepB/C/D (the 49 others).
 -/
 namespace ExprModel
 
-theorem rangeElems_length (lo hi : Int) :
-    ((rangeElems lo hi).length : Int) = if hi - lo + 1 < 0 then 0 else hi - lo + 1 := by
-  unfold rangeElems
-  split
-  · split
-    · simp
-    · simp; omega
-  · simp [List.length_map, List.length_range]; split <;> omega
-
-theorem popN_length : ∀ (n : Nat) (s : VM) (acc : List Val) (l : List Val) (s' : VM),
-    VM.popN n s acc = .ok (l, s') → l.length = n + acc.length := by
-  intro n s acc l s' h
-  exact ((sat_popN (s0 := s) n acc (Frame.refl s)).ok h).2
-
-theorem Sat.bind_eq {α β} {m : RV α} {f : α → RV β} {okP : β → Prop} {errP} {midP : α → Prop}
-    (hm : Sat m midP errP) (hf : ∀ a, m = .ok a → midP a → Sat (f a) okP errP) : Sat (m >>= f) okP errP := by
-  cases m with
-  | ok a => exact hf a rfl hm
-  | error e => exact hm
-
-theorem pop_stack {s s1 : VM} {v : Val} (h : s.pop = .ok (v, s1)) : s.stack = v :: s1.stack := by
-  unfold VM.pop at h
-  split at h
-  · rename_i hs; injection h with h; injection h with hv hs1; subst hv; subst hs1; exact hs
-  · cases h
-
-theorem pop2_stack {s s1 : VM} {a b : Val} (h : s.pop2 = .ok (a, b, s1)) : s.stack = b :: a :: s1.stack := by
-  unfold VM.pop2 at h
-  cases h1 : s.pop with
-  | error e => rw [h1] at h; cases h
-  | ok x =>
-    obtain ⟨b', s'⟩ := x
-    rw [h1] at h
-    simp only [bind, Except.bind] at h
-    cases h2 : s'.pop with
-    | error e => rw [h2] at h; cases h
-    | ok y =>
-      obtain ⟨a', s''⟩ := y
-      rw [h2] at h
-      simp only [pure, Except.pure] at h
-      injection h with h; injection h with ha h; injection h with hb hs
-      subst ha; subst hb; subst hs
-      rw [pop_stack h1, pop_stack h2]
-
-theorem liftR_ok {α} {s : VM} {r : R α} {a : α} (h : liftR s r = .ok a) : r = .ok a := by
-  cases r with
-  | ok b => injection h with h; rw [h]
-  | error e => cases h
-
-/-- the number of collection elements the next instruction is about to create, when it is an allocating
-    instruction whose operands are in place (`OpRange` with two integers on the stack, `OpArray` / `OpMap`
-    with a non-negative size on top of enough operands) -/
-def pending (p : Prog) (s : VM) : Option Nat :=
-  match Op.ofCode? (p.code[s.ip]?.getD 255), s.stack with
-  | some .range, b :: a :: _ =>
-    match toIntR a, toIntR b with
-    | .ok lo, .ok hi => some (rangeElems lo hi).length
-    | _, _ => none
-  | some .array, .int .int size :: rest => if 0 ≤ size ∧ size.toNat ≤ rest.length then some size.toNat else none
-  | some .map, .int .int size :: rest => if 0 ≤ size ∧ 2 * size.toNat ≤ rest.length then some size.toNat else none
-  | _, _ => none
-
-theorem popN_stack_len : ∀ (n : Nat) (s : VM) (acc l : List Val) (s' : VM),
-    VM.popN n s acc = .ok (l, s') → s.stack.length = n + s'.stack.length
-  | 0, s, acc, l, s', h => by
-    unfold VM.popN at h; injection h with h; injection h with _ hs; subst hs; simp
-  | n + 1, s, acc, l, s', h => by
-    unfold VM.popN at h
-    cases h1 : s.pop with
-    | error e => rw [h1] at h; cases h
-    | ok x =>
-      obtain ⟨v, s1⟩ := x
-      rw [h1] at h
-      simp only [bind, Except.bind] at h
-      have := popN_stack_len n s1 (v :: acc) l s' h
-      rw [pop_stack h1, List.length_cons, this]; omega
-
-/-- an instruction that is not one of the three allocating ones has nothing pending -/
-theorem pending_none {p : Prog} {s : VM} {op : Op} (hop : Op.ofCode? (p.code[s.ip]?.getD 255) = some op)
-    (h1 : op ≠ .range) (h2 : op ≠ .array) (h3 : op ≠ .map) : pending p s = none := by
-  unfold pending
-  rw [hop]
-  cases op <;> first | rfl | contradiction
-
-/-- `pending` is only defined at a position inside the bytecode -/
-theorem pending_in_range {p : Prog} {s : VM} {k : Nat} (h : pending p s = some k) : s.ip < p.code.size := by
-  apply Classical.byContradiction
-  intro hn
-  have h0 : p.code[s.ip]? = none := Array.getElem?_eq_none (by omega)
-  have : pending p s = none := by
-    unfold pending
-    rw [h0]
-    rfl
-  rw [this] at h; cases h
-
-/-- what one successful step does to the accounting (range sizes counted unsigned) -/
-structure StepOk (p : Prog) (s s' : VM) : Prop where
-  limit : s'.limit = s.limit
-  delta : s'.memory - s.memory = (s'.created : Int) - (s.created : Int)
-  mono : s.created ≤ s'.created
-  below : s'.created = s.created ∨ s'.memory < s'.limit
-  /-- an allocating instruction that succeeds has created exactly the pending elements and stays below the limit -/
-  alloc : ∀ k, pending p s = some k → s'.created = s.created + k ∧ s'.memory < s'.limit
-
-/-- how a step is refused for budget reasons: `k` is the number of elements the instruction was about to create -/
-inductive Refusal (p : Prog) (s s' : VM) : Prop
-  /-- a range of `k` elements is refused *before* it is built: nothing is counted, `memory + k` would reach the limit -/
-  | before (k : Nat) (hp : pending p s = some k) (hm : s'.memory = s.memory) (hc : s'.created = s.created)
-      (h : s.memory + k ≥ s.limit)
-  /-- an array / map of `k` elements fails *after* it was built and counted: the counter has reached the limit -/
-  | after (k : Nat) (hp : pending p s = some k) (hm : s'.memory = s.memory + k) (hc : s'.created = s.created + k)
-      (h : s'.memory ≥ s.limit)
-
-structure StepErr (p : Prog) (s : VM) (e : ErrClass) (s' : VM) : Prop where
-  limit : s'.limit = s.limit
-  delta : s'.memory - s.memory = (s'.created : Int) - (s.created : Int)
-  mono : s.created ≤ s'.created
-  budget : e = .budget → Refusal p s s'
-
-theorem StepOk.ofFrame {p : Prog} {s s' : VM} (h : Frame s s') (hp : pending p s = none) : StepOk p s s' :=
-  ⟨h.2.2, by rw [h.1, h.2.1]; omega, by rw [h.2.1]; exact Nat.le_refl _, .inl h.2.1,
-   fun k hk => by rw [hp] at hk; cases hk⟩
-
-theorem StepErr.ofFrame {p : Prog} {s s' : VM} {e} (h : FrameErr s e s') : StepErr p s e s' :=
-  ⟨h.1.2.2, by rw [h.1.1, h.1.2.1]; omega, by rw [h.1.2.1]; exact Nat.le_refl _, fun he => absurd he h.2⟩
-
-theorem Sat.weakenErr {α} {m : RV α} {okP : α → Prop} {p : Prog} {s0 : VM} (h : Sat m okP (FrameErr s0)) : Sat m okP (StepErr p s0) :=
-  Sat.mono h (fun _ h => h) (fun _ _ h => StepErr.ofFrame h)
+theorem opIn_of {p : Prog} {s : VM} {op : Op} {grp : List Op} (hop : Op.ofCode? (p.code[s.ip]?.getD 255) = some op)
+    (h : op ∈ grp) : OpIn grp p s := by
+  intro op' h'
+  rw [hop] at h'
+  injection h' with h'
+  rw [← h']; exact h
 
 /-- **The accounting effect of one step, for every opcode and every program.** -/
 theorem step_sat (c : Cfg) (hr : c.defects.rangeSizeSigned = false) (hw : WorldNB c.world) (p s) :
     Sat (step c p s) (StepOk p s) (StepErr p s) := by
-  unfold step
-  simp only []
-  split
-  · exact Sat.weakenErr (sat_failV ⟨rfl, rfl, rfl⟩ (by decide))
-  · rename_i op hop
-    split
-    case h_30 =>
-      refine Sat.bind_eq (Sat.weakenErr (sat_pop2 ⟨rfl, rfl, rfl⟩)) ?_
-      intro x hpop hx
-      obtain ⟨a, b, s1⟩ := x
-      have hstack : s.stack = b :: a :: s1.stack := pop2_stack (s := { s with pp := s.ip, ip := s.ip + 1 }) hpop
-      refine Sat.bind_eq (Sat.weakenErr (sat_liftR hx (nb_toIntR _))) ?_
-      intro lo hlo _
-      refine Sat.bind_eq (Sat.weakenErr (sat_liftR hx (nb_toIntR _))) ?_
-      intro hi hhi _
-      have hpend : pending p s = some (rangeElems lo hi).length := by
-        unfold pending
-        rw [hop, hstack]
-        simp only [liftR_ok hlo, liftR_ok hhi]
-      have hlen := rangeElems_length lo hi
-      simp only [hr, Bool.false_eq_true, if_false]
-      rw [← hlen]
-      obtain ⟨h1, h2, h3⟩ := hx
-      dsimp only at h1 h2 h3 ⊢
-      split
-      · rename_i hge
-        show StepErr p s .budget s1
-        refine ⟨h3, by rw [h1, h2]; omega, by rw [h2]; exact Nat.le_refl _, fun _ => ?_⟩
-        refine .before (rangeElems lo hi).length hpend h1 h2 ?_
-        rw [← h1, ← h3]; exact hge
-      · rename_i hlt
-        refine ⟨h3, ?_, ?_, ?_, ?_⟩
-        · show s1.memory + _ - s.memory = ((s1.created + (rangeElems lo hi).length : Nat) : Int) - s.created
-          rw [Int.natCast_add, h1, h2]; omega
-        · show s.created ≤ s1.created + _
-          omega
-        · right
-          show s1.memory + _ < s1.limit
-          omega
-        · intro k hk
-          rw [hpend] at hk; injection hk with hk; subst hk
-          refine ⟨?_, ?_⟩
-          · show s1.created + _ = _
-            rw [h2]
-          · show s1.memory + _ < s1.limit
-            omega
-    case h_44 =>
-      refine Sat.bind_eq (Sat.weakenErr (sat_pop ⟨rfl, rfl, rfl⟩)) ?_
-      intro x hpop hx
-      obtain ⟨n, s1⟩ := x
-      have hstack : s.stack = n :: s1.stack := pop_stack (s := { s with pp := s.ip, ip := s.ip + 1 }) hpop
-      dsimp only at hx ⊢
-      split
-      · rename_i size
-        split
-        · exact Sat.weakenErr (sat_failV hx (by decide))
-        · rename_i hneg
-          refine Sat.bind_eq (Sat.weakenErr (sat_popN size.toNat [] hx)) ?_
-          intro y hpopN hy
-          obtain ⟨elems, s2⟩ := y
-          have hdepth := popN_stack_len _ _ _ _ _ hpopN
-          have hpend : pending p s = some size.toNat := by
-            unfold pending
-            rw [hop, hstack]
-            simp only []
-            rw [if_pos ⟨by omega, by omega⟩]
-          obtain ⟨⟨h1, h2, h3⟩, hl⟩ := hy
-          dsimp only at h1 h2 h3 hl
-          simp only [List.length_nil, Nat.add_zero] at hl
-          split
-          · rename_i hge
-            dsimp only [VM.push] at hge
-            show StepErr p s .budget _
-            refine ⟨h3, ?_, ?_, fun _ => ?_⟩
-            · show s2.memory + size - s.memory = ((s2.created + elems.length : Nat) : Int) - s.created
-              rw [Int.natCast_add, h1, h2, hl]; omega
-            · show s.created ≤ s2.created + _
-              omega
-            · refine .after size.toNat hpend ?_ ?_ ?_
-              · show s2.memory + size = s.memory + _
-                rw [h1]; omega
-              · show s2.created + elems.length = s.created + _
-                rw [h2, hl]
-              · show s2.memory + size ≥ s.limit
-                rw [← h3]; exact hge
-          · rename_i hge
-            dsimp only [VM.push] at hge
-            refine ⟨h3, ?_, ?_, ?_, ?_⟩
-            · show s2.memory + size - s.memory = ((s2.created + elems.length : Nat) : Int) - s.created
-              rw [Int.natCast_add, h1, h2, hl]; omega
-            · show s.created ≤ s2.created + _
-              omega
-            · right
-              show s2.memory + size < s2.limit
-              omega
-            · intro k hk
-              rw [hpend] at hk; injection hk with hk; subst hk
-              refine ⟨?_, ?_⟩
-              · show s2.created + elems.length = _
-                rw [h2, hl]
-              · show s2.memory + size < s2.limit
-                omega
-      · exact Sat.weakenErr (sat_failV hx (by decide))
-    case h_45 =>
-      refine Sat.bind_eq (Sat.weakenErr (sat_pop ⟨rfl, rfl, rfl⟩)) ?_
-      intro x hpop hx
-      obtain ⟨n, s1⟩ := x
-      have hstack : s.stack = n :: s1.stack := pop_stack (s := { s with pp := s.ip, ip := s.ip + 1 }) hpop
-      dsimp only at hx ⊢
-      split
-      · rename_i size
-        split
-        · exact Sat.weakenErr (sat_failV hx (by decide))
-        · rename_i hneg
-          refine Sat.bind_eq (Sat.weakenErr (sat_popN' hx)) ?_
-          intro y hpopN hy
-          obtain ⟨flat, s2⟩ := y
-          have hdepth := popN_stack_len _ _ _ _ _ hpopN
-          have hpend : pending p s = some size.toNat := by
-            unfold pending
-            rw [hop, hstack]
-            simp only []
-            rw [if_pos ⟨by omega, by omega⟩]
-          refine Sat.bind (Sat.weakenErr (sat_liftR hy (nb_buildMap _))) ?_
-          intro m _
-          obtain ⟨h1, h2, h3⟩ := hy
-          dsimp only at h1 h2 h3
-          split
-          · rename_i hge
-            dsimp only [VM.push] at hge
-            show StepErr p s .budget _
-            refine ⟨h3, ?_, ?_, fun _ => ?_⟩
-            · show s2.memory + size - s.memory = ((s2.created + size.toNat : Nat) : Int) - s.created
-              rw [Int.natCast_add, h1, h2]; omega
-            · show s.created ≤ s2.created + _
-              omega
-            · refine .after size.toNat hpend ?_ ?_ ?_
-              · show s2.memory + size = s.memory + _
-                rw [h1]; omega
-              · show s2.created + size.toNat = s.created + _
-                rw [h2]
-              · show s2.memory + size ≥ s.limit
-                rw [← h3]; exact hge
-          · rename_i hge
-            dsimp only [VM.push] at hge
-            refine ⟨h3, ?_, ?_, ?_, ?_⟩
-            · show s2.memory + size - s.memory = ((s2.created + size.toNat : Nat) : Int) - s.created
-              rw [Int.natCast_add, h1, h2]; omega
-            · show s.created ≤ s2.created + _
-              omega
-            · right
-              show s2.memory + size < s2.limit
-              omega
-            · intro k hk
-              rw [hpend] at hk; injection hk with hk; subst hk
-              refine ⟨?_, ?_⟩
-              · show s2.created + size.toNat = _
-                rw [h2]
-              · show s2.memory + size < s2.limit
-                omega
-      · exact Sat.weakenErr (sat_failV hx (by decide))
-    all_goals (
-      refine Sat.weakenErr (Sat.mono ?_
-        (fun _ h => StepOk.ofFrame h (pending_none hop (by decide) (by decide) (by decide))) (fun _ _ h => h))
-      (repeat' sat_step))
+  cases hop : Op.ofCode? (p.code[s.ip]?.getD 255) with
+  | none =>
+    have hg : OpIn opsB p s := fun op h => by rw [hop] at h; cases h
+    have hp : pending p s = none := by unfold pending; rw [hop]
+    exact Sat.weakenErr (Sat.mono (step_frame_B c hw p s hg) (fun _ h => StepOk.ofFrame h hp) (fun _ _ h => h))
+  | some op =>
+    by_cases hA : op ∈ opsAlloc
+    · exact step_sat_alloc c hr hw p s (opIn_of hop hA)
+    · have hp : pending p s = none :=
+        pending_none hop (fun h => hA (by rw [h]; decide)) (fun h => hA (by rw [h]; decide)) (fun h => hA (by rw [h]; decide))
+      have hfr : Sat (step c p s) (Frame s) (FrameErr s) := by
+        by_cases hB : op ∈ opsB
+        · exact step_frame_B c hw p s (opIn_of hop hB)
+        · by_cases hC : op ∈ opsC
+          · exact step_frame_C c hw p s (opIn_of hop hC)
+          · have hD : op ∈ opsD := by
+              revert hA hB hC
+              cases op <;> decide
+            exact step_frame_D c hw p s (opIn_of hop hD)
+      exact Sat.weakenErr (Sat.mono hfr (fun _ h => StepOk.ofFrame h hp) (fun _ _ h => h))
 
 end ExprModel
